@@ -1030,7 +1030,11 @@ impl CompositionGraph {
             })
             .collect::<Vec<_>>()
         {
-            self.remove_node(node);
+            // A dependent may have already been removed by an earlier
+            // recursive removal (e.g. a diamond of type dependencies)
+            if self.graph.contains_node(node.0) {
+                self.remove_node(node);
+            }
         }
 
         // Any arguments satisfied by this node become unsatisfied again
